@@ -4,6 +4,7 @@ package internal
 
 import (
 	"context"
+	"encoding/binary"
 	"errors"
 	"fmt"
 	"math"
@@ -18,10 +19,13 @@ import (
 
 	"go.opentelemetry.io/otel/sdk/metric/metricdata"
 
+	"go.opentelemetry.io/collector/component"
 	"go.opentelemetry.io/collector/component/componenttest"
+	"go.opentelemetry.io/collector/exporter/exporterhelper/internal/hosttest"
 	"go.opentelemetry.io/collector/exporter/exporterhelper/internal/queuebatch"
 	"go.opentelemetry.io/collector/exporter/exporterhelper/internal/request"
 	"go.opentelemetry.io/collector/exporter/exporterhelper/internal/requesttest"
+	"go.opentelemetry.io/collector/exporter/exporterhelper/internal/storagetest"
 	"go.opentelemetry.io/collector/exporter/exportertest"
 	"go.opentelemetry.io/collector/pipeline"
 	"go.opentelemetry.io/collector/pipeline/xpipeline"
@@ -50,6 +54,22 @@ func vCfgErrStr(err error) string {
 type vCfgErr struct{}
 
 func (vCfgErr) Error() string { return "verif export failure" }
+
+// vFakeEncoding stores a FakeRequest (items, bytes) for the persistent queue
+type vFakeEncoding struct{}
+
+func (vFakeEncoding) Marshal(r request.Request) ([]byte, error) {
+	f := r.(*requesttest.FakeRequest)
+	b := binary.LittleEndian.AppendUint64(nil, uint64(f.Items))
+	return binary.LittleEndian.AppendUint64(b, uint64(f.Bytes)), nil
+}
+
+func (vFakeEncoding) Unmarshal(b []byte) (request.Request, error) {
+	if len(b) < 16 {
+		return nil, errors.New("short")
+	}
+	return &requesttest.FakeRequest{Items: int(binary.LittleEndian.Uint64(b)), Bytes: int(binary.LittleEndian.Uint64(b[8:]))}, nil
+}
 
 func vSizerName(s request.SizerType) string {
 	switch s {
@@ -135,8 +155,19 @@ func vConfigCase(out *vOut, c int) {
 	// all four signals: obsQueue picks its enqueue-failed counter by signal, and has none for profiles
 	signals := []pipeline.Signal{pipeline.SignalTraces, pipeline.SignalMetrics, pipeline.SignalLogs, xpipeline.SignalProfiles}
 	signal := signals[rnd.IntN(4)]
+	// a sixth of the cases: `storage` is written -> newQueueBatch builds the PERSISTENT queue (valid only with the requests
+	// sizer and without wait_for_result); plain shape, so that every consumer holds at most one request while the export is blocked
+	persistent := queueEnabled && rnd.IntN(6) == 0
+	storageID := component.MustNewID("vstorage")
+	if persistent {
+		szt, wfr, legacy, queueBatch = request.SizerTypeRequests, false, false, false
+		queueSize = int64(1 + rnd.IntN(12))
+	}
 
 	qCfg := queuebatch.Config{Enabled: queueEnabled, Sizer: szt, QueueSize: queueSize, BlockOnOverflow: block, WaitForResult: wfr, NumConsumers: nCons}
+	if persistent {
+		qCfg.StorageID = &storageID
+	}
 	if queueBatch {
 		qCfg.Batch = &queuebatch.BatchConfig{FlushTimeout: 200 * time.Millisecond, MinSize: int64(rnd.IntN(8)), MaxSize: 0}
 	}
@@ -168,12 +199,15 @@ func vConfigCase(out *vOut, c int) {
 		configured = func(*requesttest.FakeRequest) int64 { return 1 }
 	}
 	shape := "plain"
+	if persistent {
+		shape = "persistent"
+	}
 	if legacy {
 		shape = "legacy-batcher"
 	} else if queueBatch {
 		shape = "queue-batch"
 	}
-	out.Linef("case %d cap=%d block=%d wfr=%d sizer=%s shape=%s queue_enabled=%d consumers=%d batcher_first=%d signal=%s", c, wantCap, vB(wantBlock), vB(wantWfr), vSizerName(szt), shape, vB(queueEnabled), nCons, vB(batcherFirst), signal.String())
+	out.Linef("case %d cap=%d block=%d wfr=%d sizer=%s shape=%s queue_enabled=%d consumers=%d batcher_first=%d signal=%s persistent=%d", c, wantCap, vB(wantBlock), vB(wantWfr), vSizerName(szt), shape, vB(queueEnabled), nCons, vB(batcherFirst), signal.String(), vB(persistent))
 
 	tt := componenttest.NewTelemetry()
 	set := exportertest.NewNopSettings(exportertest.NopType)
@@ -194,6 +228,7 @@ func vConfigCase(out *vOut, c int) {
 		return nil
 	}
 	qbs := QueueBatchSettings[request.Request]{
+		Encoding: vFakeEncoding{},
 		Sizers: map[request.SizerType]request.Sizer[request.Request]{
 			request.SizerTypeRequests: request.RequestsSizer[request.Request]{},
 			request.SizerTypeItems:    request.NewItemsSizer(),
@@ -214,7 +249,11 @@ func vConfigCase(out *vOut, c int) {
 		out.Linef("end")
 		return
 	}
-	if err := be.Start(context.Background(), componenttest.NewNopHost()); err != nil {
+	var host component.Host = componenttest.NewNopHost()
+	if persistent {
+		host = hosttest.NewHost(map[component.ID]component.Component{storageID: storagetest.NewMockStorageExtension(nil)})
+	}
+	if err := be.Start(context.Background(), host); err != nil {
 		out.Linef("viol sig=C02/config/start-fails %s", vHex(err.Error()))
 		out.Linef("end")
 		return
@@ -252,7 +291,8 @@ func vConfigCase(out *vOut, c int) {
 			}
 			ps = append(ps, fmt.Sprintf("%d:%s", p, st))
 		}
-		if offered >= 0 {
+		if offered >= 0 && !persistent {
+			// (persistent queue: a read that empties the queue resets the reported size, judged by the Lean clauses instead)
 			// direct oracle: an accepted request must raise the reported size by its CONFIGURED size
 			x := prods[offered]
 			if x.ret && x.res == "nil" && !wantWfr && x.el != 0 && size == prevSize {
@@ -301,14 +341,14 @@ func vConfigCase(out *vOut, c int) {
 			continue
 		}
 		items := rnd.IntN(7)
-		if items == 0 && shape != "plain" {
+		if items == 0 && shape != "plain" && shape != "persistent" {
 			items = 1 // a batcher finishes an empty request at once, without export: a completion this script does not model
 		}
 		if rnd.IntN(10) == 0 {
 			items = int(queueSize) + 1 + rnd.IntN(3)
 		}
 		bytes := items*(3+rnd.IntN(5)) + rnd.IntN(4)
-		if bytes == 0 && shape != "plain" {
+		if bytes == 0 && shape != "plain" && shape != "persistent" {
 			bytes = 1
 		}
 		req := &requesttest.FakeRequest{Items: items, Bytes: bytes}
@@ -318,7 +358,7 @@ func vConfigCase(out *vOut, c int) {
 		mu.Lock()
 		prods[p] = x
 		mu.Unlock()
-		if shape == "plain" && rnd.IntN(4) == 0 {
+		if shape == "plain" && rnd.IntN(4) == 0 { // (never with the persistent queue: its requests are decoded copies)
 			failMu.Lock()
 			failing[req] = true
 			failMu.Unlock()
@@ -371,7 +411,7 @@ func vConfigCase(out *vOut, c int) {
 	_ = be.Shutdown(context.Background())
 	_ = tt.Shutdown(context.Background())
 	synctest.Wait()
-	if blockedN > 0 || legacy {
+	if blockedN > 0 || legacy || persistent {
 		out.Linef("nt")
 	}
 	out.Linef("stat config_%s_%s 1", vSizerName(szt), shape)
